@@ -300,6 +300,82 @@ Theorem C04_partial_wrappers :
 Proof. exact @partial_wrappers. Qed.
 Print Assumptions C04_partial_wrappers.
 
+(* _(a, _, c)(f, b): a call section whose callee is the hole, any layout of further holes *)
+Theorem C04_hole_callee :
+  forall (B C D : Type) (brun : B -> list (val B C D) -> outcome (val B C D))
+         (crun : C -> list (val B C D) -> outcome (val B C D))
+         (diter : D -> outcome (list (val B C D))) n f (l : list (val B C D * bool)),
+  eval brun crun diter (S n) (form_hole_callee f l) = run brun crun diter n f (map fst l).
+Proof. exact @hole_callee. Qed.
+Print Assumptions C04_hole_callee.
+
+(* the function values built by  on  &&&  ***  lift  (OnComposition, Fanout, Parallel, OnFanoutConst) mean
+   what their names say; being function values, every form of C04_forms_agree_* applies to them *)
+Theorem C04_function_combinators :
+  forall (B C D : Type) (brun : B -> list (val B C D) -> outcome (val B C D))
+         (crun : C -> list (val B C D) -> outcome (val B C D))
+         (diter : D -> outcome (list (val B C D))) n f g h a b c (args : list (val B C D)),
+  run brun crun diter (S n) (FOnComposition f g) [a; b] =
+    bind (run brun crun diter n g [a]) (fun x => bind (run brun crun diter n g [b]) (fun y => run brun crun diter n f [x; y])) /\
+  run brun crun diter (S n) (FFanout [g; h]) args =
+    bind (run brun crun diter n g args) (fun x => bind (run brun crun diter n h args) (fun y => Ok (VList [x; y]))) /\
+  run brun crun diter (S n) (FParallel [g; h]) [a; b] =
+    bind (run brun crun diter n g [a]) (fun x => bind (run brun crun diter n h [b]) (fun y => Ok (VList [x; y]))) /\
+  (is_func c = false ->
+   run brun crun diter (S n) (FOnFanoutConst f [VFunc g; c]) args =
+     bind (run brun crun diter n g args) (fun x => run brun crun diter n f [x; c])).
+Proof. exact @function_combinators. Qed.
+Print Assumptions C04_function_combinators.
+
+Theorem C04_combinators_build :
+  forall (B C D : Type) (brun : B -> list (val B C D) -> outcome (val B C D))
+         (crun : C -> list (val B C D) -> outcome (val B C D))
+         (diter : D -> outcome (list (val B C D))) n f g h (c : val B C D),
+  run brun crun diter (S n) (FCombinator CParallel) [VFunc g; VFunc h] = Ok (VFunc (FParallel [g; h])) /\
+  run brun crun diter (S n) (FCombinator CFanout) [VFunc g; VFunc h] = Ok (VFunc (FFanout [g; h])) /\
+  run brun crun diter (S n) (FKnown KOn) [VFunc f; VFunc g] = Ok (VFunc (FOnComposition f g)) /\
+  run brun crun diter (S n) (FCombinator CLift) [VFunc g; c; VFunc f] = Ok (VFunc (FOnFanoutConst f [VFunc g; c])) /\
+  (is_func c = false -> run brun crun diter (S n) (FCombinator CParallel) [VFunc g; c] = Err EType) /\
+  (is_func c = false -> run brun crun diter (S n) (FCombinator CLift) [VFunc g; c] = Err EType).
+Proof. exact @combinators_build. Qed.
+Print Assumptions C04_combinators_build.
+
+(* which one-argument calls of the combinators are right sections: lift (PartialAppLast) and on (a
+   TwoArgBuiltin, C04_known_right_section) are ... *)
+Theorem C04_lift_is_section :
+  forall (B C D : Type) (brun : B -> list (val B C D) -> outcome (val B C D))
+         (crun : C -> list (val B C D) -> outcome (val B C D))
+         (diter : D -> outcome (list (val B C D))) n a b,
+  run brun crun diter (S n) (FCombinator CLift) [b] = Ok (VFunc (FPartialAppLast (FCombinator CLift) b)) /\
+  eval brun crun diter (S n) (form_curried (FCombinator CLift) a b) = run brun crun diter n (FCombinator CLift) [a; b].
+Proof. exact @lift_is_section. Qed.
+Print Assumptions C04_lift_is_section.
+
+(* ... and the variadic combinators are not (known finding `variadic-combinator`, now a theorem about the
+   model, for all g h and all builtin meanings): f(h, g) succeeds, f(g) is a function, f(g)(h) is not f(h, g) *)
+Theorem C04_variadic_combinators_not_sections :
+  forall (B C D : Type) (brun : B -> list (val B C D) -> outcome (val B C D))
+         (crun : C -> list (val B C D) -> outcome (val B C D))
+         (diter : D -> outcome (list (val B C D))) n m g h,
+  (run brun crun diter (S m) (FCombinator CParallel) [VFunc h; VFunc g] = Ok (VFunc (FParallel [h; g])) /\
+   run brun crun diter (S n) (FCombinator CParallel) [VFunc g] = Ok (VFunc (FParallel [g])) /\
+   eval brun crun diter (S (S n)) (form_curried (FCombinator CParallel) (VFunc h) (VFunc g)) = Err EType) /\
+  (run brun crun diter (S m) (FCombinator CFanout) [VFunc h; VFunc g] = Ok (VFunc (FFanout [h; g])) /\
+   run brun crun diter (S n) (FCombinator CFanout) [VFunc g] = Ok (VFunc (FFanout [g])) /\
+   forall r, eval brun crun diter (S (S n)) (form_curried (FCombinator CFanout) (VFunc h) (VFunc g)) <> Ok (VFunc r)).
+Proof. exact @variadic_combinators_not_sections. Qed.
+Print Assumptions C04_variadic_combinators_not_sections.
+
+(* equals(args) = OnFanoutConst(==, args): for data a b the function equals(b) applied to a is the
+   one-argument call of the == builtin on b, not equals(a, b) *)
+Theorem C04_equals_curried :
+  forall (B C D : Type) (brun : B -> list (val B C D) -> outcome (val B C D))
+         (crun : C -> list (val B C D) -> outcome (val B C D))
+         (diter : D -> outcome (list (val B C D))) n (beq : B) a b, is_func b = false ->
+  run brun crun diter (S (S n)) (FOnFanoutConst (FBuiltin beq) [b]) [a] = brun beq [b].
+Proof. exact @equals_curried. Qed.
+Print Assumptions C04_equals_curried.
+
 (* non-vacuity: a builtin that returns its argument vector tells the argument orders apart, every
    form computes, and the sections really are sections *)
 Definition nv_brun (b : nat) (args : list (val nat unit nat)) : outcome (val nat unit nat) :=
